@@ -71,6 +71,9 @@ def _base_configs():
     # (an undersaturated alloy: nothing precipitates, so steps forced up to the minimum fraction cannot drain classes beyond the model's own limit)
     c.append(dict(tag="min-step-fraction-undersaturated", phases=[ph], D=1e-16, x0=0.004, minfrac=0.2, calls=[(50.0, 0.3)], iter="rk4", norandom=True))
     c.append(dict(tag="min-step-fraction-undersaturated-two-calls", phases=[ph], D=1e-16, x0=0.004, minfrac=0.2, calls=[(20.0, 0.3), (30.0, 0.3)], iter="euler", norandom=True))
+    # every size class of the grid unstable while the driving force is positive (the stability limit lies above the largest class): the run goes on
+    # at its ordinary pace (~500 steps) and reaches its end time
+    c.append(dict(tag="all-classes-unstable-positive-driving-force", phases=[ph], D=1e-16, xlim=0.012, calls=[(10.0, 0.02)], iter="rk4", cap=6000, must_finish=True, norandom=True))
     # instantaneous quench: a break point time given twice, schedule supplied through the model's setter
     c.append(dict(tag="quench-step-down-setter", phases=[ph], D=1e-16, se=1e-5, temp=("array", [0, H(4.0), H(4.0), H(10.0)], [1010, 1010, 1000, 1000]),
                   calls=[(10.0, 0.02)], iter="euler", constraints=dict(maxNonIsothermalDT=20)))
